@@ -9,6 +9,6 @@ extern "C" void harness_c16_base() {
   HexK m;
   build_hex_base(m, v_param(0));
   if (m.n_cells() != (v_param(0) == HB_HEX ? 1u : v_param(0) == HB_SHEET ? 4u : 2u)) return;   // base not built: witness unreachable
-  check_hex_all(m);
+  check_hex_all(m, v_param(1));
   v_witness("C16 base end");
 }
